@@ -24,7 +24,7 @@ fn sync(mut b: Vec<u8>) -> Vec<u8> {
 }
 
 pub const PROGRAMS: &[&str] = &[
-    "prepare-then-bind", "two-names", "describe", "close-reparse", "two-binds-one-batch", "lru-order", "collide-a", "collide-b", "same-text-other-types", "parse-bind-same-batch", "case-variant", "error-parse", "sql-prepare-between", "sql-prepare-only",
+    "prepare-then-bind", "two-names", "describe", "close-reparse", "two-binds-one-batch", "lru-order", "collide-a", "collide-b", "same-text-other-types", "parse-bind-same-batch", "case-variant", "error-parse", "error-parse-twice", "sql-prepare-between", "sql-prepare-only",
 ];
 
 /// Program for client `c`. Texts carry the client's tag so that results are attributable.
@@ -139,6 +139,20 @@ pub fn program(c: usize, prog: &str) -> Script {
             b.extend(be("a", &t(1)));
             s = s.send_z(sync(b), "P(a,T1) B E S");
             s = s.send_z(sync(be("a", &t(2))), "B(a) E S");
+        }
+        "error-parse-twice" => {
+            // the same rejected text again: it was never prepared, so it must be sent (and rejected) again,
+            // under the same name and under another one
+            s = s.send_z(sync(p("a", "SELECT ERR!PARSE", &[])), "P(a, bad) S");
+            let mut b = p("a", "SELECT ERR!PARSE", &[]);
+            b.extend(be("a", &t(1)));
+            s = s.send_z(sync(b), "P(a, bad) B E S");
+            let mut b = p("b", "SELECT ERR!PARSE", &[]);
+            b.extend(be("b", &t(2)));
+            s = s.send_z(sync(b), "P(b, bad) B E S");
+            let mut b = p("a", &t1, &[]);
+            b.extend(be("a", &t(3)));
+            s = s.send_z(sync(b), "P(a,T1) B E S");
         }
         "sql-prepare-between" => {
             // a simple-protocol PREPARE makes the pooler run DEALLOCATE ALL when the server goes back to
@@ -398,6 +412,8 @@ pub fn build(tier: &str) -> SimCheck {
                     ("same-text-other-types", "describe"),
                     ("parse-bind-same-batch", "two-binds-one-batch"),
                     ("error-parse", "prepare-then-bind"),
+                    ("error-parse-twice", "prepare-then-bind"),
+                    ("error-parse-twice", "error-parse-twice"),
                     ("case-variant", "prepare-then-bind"),
                     ("prepare-then-bind", "sql-prepare-only"),
                     ("two-names", "sql-prepare-only"),
@@ -421,7 +437,7 @@ pub fn build(tier: &str) -> SimCheck {
         oracle: Box::new(oracle),
         bound: if thorough { 3 } else { 2 },
         limits: Limits { max_wall_s: if thorough { 1500.0 } else { 50.0 }, ..Default::default() },
-        rule: "generated: every batch of <= 2 (thorough 3) items over {P(a,T1), P(a,T2), P(b,T2), B(a)E, B(b)E, D(S,a), C(S,a), C(S,b), unnamed P B E, C(P,''), B E on a portal named like its statement, C(P,a)} after the prefixes {none, a prepared, a and b prepared}, followed by a probe Bind of a or b, kept when valid on a direct connection, x cache size {1,2,8}; hand-written: scenario = server/pool statement cache size {1,2,8} x pool_size {1,2} x one or two client programs over shared names a/b (prepare then bind across transactions, two names, Describe, Close + re-Parse with new text, two Binds in one batch, LRU order, structurally colliding (text, n, types) encodings, same text with other types, Parse+Bind pairs in one batch, case variants, rejected Parse, a simple-protocol PREPARE (which makes the pooler DEALLOCATE ALL at check-in) between uses of a protocol-level statement); all schedules with <= bound deviations; oracle = direct-connection reference per client".into(),
+        rule: "generated: every batch of <= 2 (thorough 3) items over {P(a,T1), P(a,T2), P(b,T2), B(a)E, B(b)E, D(S,a), C(S,a), C(S,b), unnamed P B E, C(P,''), B E on a portal named like its statement, C(P,a)} after the prefixes {none, a prepared, a and b prepared}, followed by a probe Bind of a or b, kept when valid on a direct connection, x cache size {1,2,8}; hand-written: scenario = server/pool statement cache size {1,2,8} x pool_size {1,2} x one or two client programs over shared names a/b (prepare then bind across transactions, two names, Describe, Close + re-Parse with new text, two Binds in one batch, LRU order, structurally colliding (text, n, types) encodings, same text with other types, Parse+Bind pairs in one batch, case variants, rejected Parse, the same rejected text parsed again under the same and another name, a simple-protocol PREPARE (which makes the pooler DEALLOCATE ALL at check-in) between uses of a protocol-level statement); all schedules with <= bound deviations; oracle = direct-connection reference per client".into(),
         assumptions: vec!["the reference backend without a pooler defines the direct-connection behaviour; synthesised ParseComplete/CloseComplete may be reordered within a reply".into()],
     }
 }
